@@ -83,17 +83,33 @@ def sugar_worker(args):
     cfg = exp.cfg()
     only = params.get("only")
 
+    imported = bool(params.get("imported"))
+    tmpdir = None
+
     def viol(mon, w, detail):
-        res["violations"].append((mon, {"grammar": text, "input": w}, detail,
+        res["violations"].append((mon, dict({"grammar": text, "input": w}, **({"imported": True} if imported else {})), detail,
                                   {"family": "generic", "module": "vlib.monitors.sugarmon", "function": "replay",
                                    "idx": idx, "greedy": greedy_case,
                                    "params": {k: v for k, v in params.items() if k != "only"}}))
     try:
-        g = Grammar.from_string(text)
+        if imported:
+            # the sugared rules live in an IMPORTED file; the root grammar only refers to its start rule
+            import os, tempfile
+            tmpdir = tempfile.mkdtemp(prefix="verif_sugar_")
+            with open(os.path.join(tmpdir, "sub.pg"), "w") as fh:
+                fh.write(text + "\n")
+            with open(os.path.join(tmpdir, "root.pg"), "w") as fh:
+                fh.write("import 'sub.pg' as m;\nRoot: m.S;\n")
+            g = Grammar.from_file(os.path.join(tmpdir, "root.pg"))
+        else:
+            g = Grammar.from_string(text)
         glr = GLRParser(g)
         glr_ps = GLRParser(g, prefer_shifts=True)
     except Exception as e:  # noqa
         viol("sugar.grammar_loads", None, exc_str(e))
+        if tmpdir:
+            import shutil
+            shutil.rmtree(tmpdir, ignore_errors=True)
         return res
     import contextlib, io
     try:
@@ -101,6 +117,10 @@ def sugar_worker(args):
             lr = Parser(g)
     except (SRConflicts, RRConflicts):
         lr = None
+    finally:
+        if tmpdir:      # (the table cache is written next to the grammar file while the parsers are built)
+            import shutil
+            shutil.rmtree(tmpdir, ignore_errors=True)
     alphabet = "ab," if "," in cfg.terms else "ab"
     res["samples"].append({"sugared": text, "expanded": [f"{l} -> {' '.join(r) or 'EMPTY'}" for l, r in cfg.prods]})
     for L in range(0, params["max_len"] + 1):
